@@ -52,6 +52,17 @@ func escaperSummary(p *eng.Prog, fn *ssa.Function, cache map[*ssa.Function]int) 
 			}
 			// the replacements may be listed in a read-only package-level table the function walks
 			if g, ok := (*op).(*ssa.Global); ok && g.Pkg == fn.Pkg {
+				// a strings.Replacer made once at package level: the old strings are the even arguments
+				if callee, consts, ok := eng.GlobalInitCall(g); ok && callee == "strings.NewReplacer" {
+					for i := 0; i+1 < len(consts); i += 2 {
+						if consts[i] == "|" && strings.Contains(consts[i+1], "\\") {
+							got |= escPipe
+						}
+						if consts[i] == "\n" {
+							got |= escNL
+						}
+					}
+				}
 				if strs, ok := eng.GlobalLiteralStrings(g); ok {
 					for _, s := range strs {
 						if s == "|" {
